@@ -167,6 +167,8 @@ def run(chk):
                 except Undecided as e:
                     v, d = UNDECIDED, e.cause
                 chk.add("C08.O", key, v, d, where=where_of(pb))
+    # ------------------------------------------------------------------ C08.W word comparison on windows
+    order_windows(chk, env)
     # ------------------------------------------------------------------ C08.S / C08.I
     cfgs = [("dbg", env)] + ([("rel", Env(frel))] if frel else [])
     for cfg, e in cfgs:
@@ -350,3 +352,70 @@ def check_next(e, kind, it, outs, ip, ti, oi, n, ok):
     if seen != want_paths:
         return REFUTED, "successor step has paths %s, expected one per carry position and the wrap-around" % sorted(seen)
     return PROVED, ""
+
+
+def order_windows(chk, env):
+    """C08.W: Ord::cmp of both types on tables whose blocks have a few symbolic bits (bits 0, 62, 63 of every block,
+    0 elsewhere), in window mode: whatever way two blocks are compared (iterator comparison, explicit loops, subtraction
+    tricks), the summary evaluated on every choice must be the order of the tables read as unsigned integers, most
+    significant block first."""
+    import itertools as _it
+    from ..harness import Space
+    for kind in ("dyn", "static"):
+        K = env.kinds[kind]
+        impls = {tr["path"]: b for b, sty, tr in env.facts.trait_impl_methods("std::cmp::") if sty.get("path") == K.adt}
+        ob = impls.get("std::cmp::Ord")
+        if ob is None:
+            continue
+        for n in (6, 7):
+            T = table_words(n)
+            pos = (0, 62, 63) if T == 1 else (0, 63)
+            key = "<%s as Ord>::cmp n=%d, bits %s of each block symbolic" % (K.adt, n, list(pos))
+            try:
+                names = ["%s[%d]" % (nm, w_ * 64 + p_) for nm in "ab" for w_ in range(T) for p_ in pos]
+                space = Space(names)
+                it = env.interp(max_paths=8192)
+                it.prune = True
+                it.cmp_split = True
+                it.split_all = True
+                it.space = space
+                st = State()
+
+                def tab(nm):
+                    return [W(64, bits=[B.atom("%s[%d]" % (nm, w_ * 64 + p_)) if p_ in pos else ZERO for p_ in range(64)]) for w_ in range(T)]
+                pa = K.place(st, K.mk(st, n, tab("a")))
+                pb_ = K.place(st, K.mk(st, n, tab("b")))
+                with space:
+                    outs = it.call_body(ob, [pa, pb_], st, K.env(n))
+                owner = {}
+                for idx_, o in enumerate(outs):
+                    m_ = space.pc_mask(o.pc)
+                    if m_ is None:
+                        raise Undecided("path condition with top")
+                    while m_:
+                        low = m_ & -m_
+                        owner.setdefault(low.bit_length() - 1, []).append(idx_)
+                        m_ ^= low
+                v, d = PROVED, ""
+                for r_ in range(1 << len(names)):
+                    en = [outs[x_] for x_ in owner.get(r_, [])]
+                    vals = {nm: (r_ >> j) & 1 for j, nm in enumerate(names)}
+                    ia = sum(vals["a[%d]" % (w_ * 64 + p_)] << (w_ * 64 + p_) for w_ in range(T) for p_ in pos)
+                    ib = sum(vals["b[%d]" % (w_ * 64 + p_)] << (w_ * 64 + p_) for w_ in range(T) for p_ in pos)
+                    if len(en) != 1:
+                        v, d = UNDECIDED, "%d paths enabled" % len(en)
+                        break
+                    o = en[0]
+                    if o.kind != "return":
+                        v, d = REFUTED, "panics (%s) comparing %#x with %#x" % (o.info.get("msg"), ia, ib)
+                        break
+                    r = o.value
+                    if not (isinstance(r, Agg) and r.key == "std::cmp::Ordering"):
+                        raise Undecided("result %r" % (r,))
+                    want = (ia > ib) - (ia < ib)
+                    if r.variant - 1 != want:
+                        v, d = REFUTED, "the tables %#x and %#x compare %s, as integers they are %s" % (ia, ib, ["Less", "Equal", "Greater"][r.variant], ["Less", "Equal", "Greater"][want + 1])
+                        break
+            except Undecided as e:
+                v, d = UNDECIDED, e.cause
+            chk.add("C08.W", key, v, d, where=where_of(ob))
